@@ -108,6 +108,14 @@ func TestVerifC07Aac(t *testing.T) {
 		{name: "aac_SampleRateIndex_ToHz", widths: []int{8}, call: func(a []int64) vSx { return vI(SampleRateIndex(a[0]).ToHz()) }},
 	}
 	fams := []*vC07Fam{
+		{name: "aac-big-frame-then-small", dec: "aac.adts", cost: "aac.adts", costMax: 1 << 20, build: func(n int) []byte {
+			// the largest ADTS frame (13-bit length 8191), then minimal frames
+			out := append([]byte{0xff, 0xf1, 0x50, 0x83, 0xff, 0xff, 0xfc}, make([]byte, 8191-7)...)
+			for len(out)+8 <= n {
+				out = append(out, 0xff, 0xf1, 0x50, 0x80, 0x01, 0x1f, 0xfc, 0x00)
+			}
+			return out
+		}},
 		{name: "aac-dense-frames", dec: "aac.adts", cost: "aac.adts", costMax: 1 << 20, build: func(n int) []byte {
 			var out []byte
 			for len(out)+8 <= n {
